@@ -486,12 +486,14 @@ def strip_derefs(proj):
 class Terms:
     """Expression-tree reconstruction for one function."""
 
-    def __init__(self, fn, transparent=TRANSPARENT_CALLS, max_depth=60):
+    def __init__(self, fn, transparent=TRANSPARENT_CALLS, max_depth=60, opaque=None):
         self.fn = fn
         self.defs = fn.defs()
         self.transparent = transparent
         self.max_depth = max_depth
         self.memo = {}
+        # locals to be kept symbolic under a given name (e.g. a loop-carried cursor such as `ip`)
+        self.opaque = opaque or {}
 
     def operand(self, op, depth=0, stack=()):
         k = op["k"]
@@ -510,6 +512,8 @@ class Terms:
     def local(self, l, depth=0, stack=()):
         if l in self.memo:
             return self.memo[l]
+        if l in self.opaque:
+            return ("param", 1000 + l, self.opaque[l])
         if l in stack:
             return ("loop", l)
         if depth > self.max_depth:
@@ -630,6 +634,8 @@ def const_term(op):
     if "fn" in op:
         return ("fnitem", op["fn"].get("res") or op["fn"].get("path"))
     if "int" in op:
+        if "item" in op:
+            return ("int", op["int"], op.get("ty"), op["item"])
         return ("int", op["int"], op.get("ty"))
     if "uint_s" in op:
         return ("int", int(op["uint_s"]), op.get("ty"))
